@@ -1,0 +1,19 @@
+//go:build verif
+
+package lq
+
+import "github.com/internetarchive/Zeno/internal/pkg/log"
+
+// VerifUseClient makes c the client the package-level helpers (and the LQClient methods, which
+// go through the package-level instance) operate on, without starting the consumer, producer and
+// finisher goroutines. It lets a monitor drive Init/Add/Get/Delete histories, including
+// re-opening the same database the way a restarted job does.
+func VerifUseClient(c *LQClient) {
+	if logger == nil {
+		log.Start()
+		logger = log.NewFieldedLogger(&log.Fields{
+			"component": "lq",
+		})
+	}
+	globalLQ = &lq{client: c}
+}
